@@ -103,6 +103,17 @@ def main():
     os.makedirs(d, exist_ok=True)
     shutil.copyfile(patch, os.path.join(d, "patch.diff"))
     shutil.copyfile(demo, os.path.join(d, "demo_test.go"))
+    old = None
+    try:
+        old = json.load(open(os.path.join(d, "meta.json"))).get("verification")
+    except Exception:
+        pass
+    if old and (old.get("caught_with_failing_input") != rec.get("caught_with_failing_input")):
+        rec["earlier_run"] = {k: old.get(k) for k in ("checked_at", "caught", "caught_with_failing_input", "check_output")}
+        rec["note"] = "the first run against this change did not produce a failing input; the check (generator/predicate) was strengthened afterwards, see DESIGN.md"
+    elif old and old.get("earlier_run"):
+        rec["earlier_run"] = old["earlier_run"]
+        rec["note"] = old.get("note", "")
     meta["verification"] = rec
     json.dump(meta, open(os.path.join(d, "meta.json"), "w"), indent=1, ensure_ascii=False)
     print(json.dumps(rec, indent=1))
